@@ -127,3 +127,204 @@ json_value = st.recursive(json_scalar,
                                                st.dictionaries(st.one_of(st.sampled_from(HEDISH_KEYS),
                                                                          st.text(max_size=4)), ch, max_size=3)),
                           max_leaves=8)
+
+
+# ---------------------------------------------------------------------------------------------------------------
+# tables and the reference assembler
+def text_tree(children):
+    """gen_hed tree -> nested lists of tag texts ({ref} leaves become ('ref', name))."""
+    out = []
+    for c in children:
+        if gen_hed.is_group(c):
+            out.append(text_tree(c["g"]))
+        elif c.get("kind") == "ref":
+            out.append(("ref", c["ref"]))
+        else:
+            out.append(c["t"])
+    return out
+
+
+def parsed_tree(text):
+    """Reference parse of a HED string into nested lists of tag texts (None if unbalanced)."""
+    stack = [[]]
+    cur = ""
+    for ch in text:
+        if ch in ",()":
+            t = cur.strip(" ")
+            if t:
+                stack[-1].append(t)
+            cur = ""
+            if ch == "(":
+                stack.append([])
+            elif ch == ")":
+                if len(stack) == 1:
+                    return None
+                g = stack.pop()
+                stack[-1].append(g)
+        else:
+            cur += ch
+    t = cur.strip(" ")
+    if t:
+        stack[-1].append(t)
+    if len(stack) != 1:
+        return None
+    return stack[0]
+
+
+def canon(tree):
+    """Order-insensitive canonical form of a nested list of strings."""
+    items = []
+    for x in tree:
+        if isinstance(x, list):
+            items.append(("g", canon(x)))
+        else:
+            items.append(("t", x))
+    return tuple(sorted(items, key=repr))
+
+
+import re as _re
+_BAD_DELIMS = [_re.compile(p) for p in (r",\s*,", r"\(\s*,", r",\s*\)", r"^\s*,", r",\s*$", r"\(\s*\)")]
+
+
+def delimiter_well_formed(text):
+    if parsed_tree(text) is None:
+        return False
+    return not any(p.search(text) for p in _BAD_DELIMS)
+
+
+def contribution(colspec, cell):
+    """The annotation tree a cell contributes, or None when it contributes nothing."""
+    kind = colspec["kind"]
+    if kind == "categorical":
+        t = colspec["entries"].get(cell)
+        return None if t is None else text_tree(t)
+    if kind == "value":
+        if cell in ("n/a", ""):
+            return None
+        return text_tree(gen_hed.substitute(colspec["template"], cell))
+    if kind == "hed":
+        if cell in ("n/a", ""):
+            return None
+        return parsed_tree(cell)
+    return None
+
+
+def resolve(tree, contribs):
+    out = []
+    for x in tree:
+        if isinstance(x, tuple) and x[0] == "ref":
+            sub = contribs.get(x[1])
+            if sub is not None:
+                out.extend(resolve(sub, contribs))
+        elif isinstance(x, list):
+            g = resolve(x, contribs)
+            if g:
+                out.append(g)
+        else:
+            out.append(x)
+    return out
+
+
+def all_refs(spec):
+    refs = set()
+    for c in spec["columns"].values():
+        trees = [c["template"]] if c["kind"] == "value" else list(c.get("entries", {}).values())
+        for t in trees:
+            for x in gen_hed.flatten(t):
+                if x.get("kind") == "ref":
+                    refs.add(x["ref"])
+    return refs
+
+
+def reference_assemble(spec, header, rows):
+    """Expected annotation tree per row (order-insensitive canonical form is compared)."""
+    cols = dict(spec["columns"])
+    if "HED" in header:
+        cols["HED"] = {"kind": "hed"}
+    referenced = all_refs(spec) & set(header)
+    out = []
+    for row in rows:
+        cells = dict(zip(header, row))
+        contribs = {}
+        for name, cs in cols.items():
+            if name in cells and cs["kind"] != "ignored":
+                contribs[name] = contribution(cs, cells[name])
+        result = []
+        for name in header:
+            if name in contribs and name not in referenced and contribs[name] is not None:
+                result.extend(resolve(contribs[name], contribs))
+        out.append(result)
+    return out
+
+
+@st.composite
+def table_for(draw, spec, version, used, min_rows=1, max_rows=6, hed_column=None, onset=None, empty_cells=True):
+    """A table (header, rows of str) over the sidecar's columns (+ optional HED / onset / unrelated columns)."""
+    pl = gen_hed.pool(version)
+    names = list(spec["order"])
+    refs = all_refs(spec)
+    if hed_column is None:
+        hed_column = ("HED" in refs) or draw(st.booleans())
+    # drop some unreferenced sidecar columns from the file; keep every referenced one (see check assumptions)
+    keep = [n for n in names if n in refs or draw(st.integers(0, 4)) > 0]
+    if not keep and not hed_column:
+        keep = names[:1]
+    header = list(keep)
+    if hed_column:
+        header.append("HED")
+    if draw(st.booleans()):
+        header.append("unrelated")
+    header = list(draw(st.permutations(header)))
+    if onset is None:
+        onset = draw(st.booleans())
+    if onset:
+        header = ["onset", "duration"] + header
+    nrows = draw(st.integers(min_rows, max_rows))
+    hed_cells = {}
+    rows = []
+    absent = ["n/a"] + ([""] if empty_cells else [])
+    for r in range(nrows):
+        row = []
+        for h in header:
+            if h == "onset":
+                row.append(str(r * 1.5 + 0.5))
+            elif h == "duration":
+                row.append("n/a")
+            elif h == "unrelated":
+                row.append(draw(st.sampled_from(["x", "n/a", "3"])))
+            elif h == "HED":
+                m = draw(st.integers(0, 3))
+                if m == 0:
+                    row.append(draw(st.sampled_from(absent)))
+                else:
+                    tree = draw(template(version, used, max_depth=1, max_children=2))
+                    row.append(gen_hed.render(tree))
+            else:
+                cs = spec["columns"][h]
+                if cs["kind"] == "categorical":
+                    m = draw(st.integers(0, 5))
+                    if m == 0:
+                        row.append(draw(st.sampled_from(absent)))
+                    elif m == 1:
+                        row.append("zzz-unknown")
+                    else:
+                        row.append(draw(st.sampled_from(sorted(cs["entries"]))))
+                elif cs["kind"] == "value":
+                    if draw(st.integers(0, 3)) == 0:
+                        row.append(draw(st.sampled_from(absent)))
+                    else:
+                        ph = [x for x in gen_hed.flatten(cs["template"]) if x.get("kind") == "placeholder"][0]
+                        node = pl.m.by_long[ph["node"].casefold()]
+                        val, _ = gen_hed.value_for(draw, node, pl)
+                        row.append(val)
+                else:
+                    row.append(draw(st.sampled_from(["a", "b", "n/a"])))
+        rows.append(row)
+    return {"header": header, "rows": rows}
+
+
+def to_tsv(table):
+    lines = ["\t".join(table["header"])]
+    for r in table["rows"]:
+        lines.append("\t".join(r))
+    return "\n".join(lines) + "\n"
